@@ -170,6 +170,34 @@ Theorem C14_spec_is_generic : forall (D : schema) (ST : nat -> stmt) (ns : nat) 
   srun D ST ns (sinit init nodes) ls = Some st -> greach ST init (s_g st).
 Proof. exact srun_greach. Qed.
 
+(* Transparency end to end: from ANY reachable state of the specification system in which call c
+   has its first EXECUTE in flight to a node that has evicted the statement (and still prepares its
+   text under the id the client holds, and the statement returns columns), the uninterrupted
+   continuation serve/receive (UNPREPARED), serve/receive (PREPARED), reload, serve/receive ends with
+   the caller holding the rows the node put into its last answer — decoded with the node's columns
+   whenever the extension is on or cached metadata is off. *)
+Theorem C14_evicted_recovers : forall (D : schema) (ST : nat -> stmt) (ns : nat) (init : nat -> meta),
+  (forall s v v', mid_of D s v = mid_of D s v' -> cols_of D s v = cols_of D s v') ->
+  (forall s v, mid_of D s v <> []) ->
+  (forall s s', s_id (ST s) = s_id (ST s') -> s = s') ->
+  (forall s s', s_text (ST s) = s_text (ST s') -> s = s') ->
+  (forall s, meta_ok D s (init s)) ->
+  forall nodes ls st c a m s p0 p1 p,
+  srun D ST ns (sinit init nodes) ls = Some st ->
+  let nd := s_nodes st (s_route st c) in
+  let k := g_calls (s_g st) c in
+  stmt_of_id ST ns (s_id (ST s)) = Some s -> stmt_of_text ST ns (s_text (ST s)) = Some s ->
+  sid D s 0 = s_id (ST s) ->
+  k_x k = Some a -> xa_stmt a = s -> k_st k = CS_exec1 a m ->
+  s_out st c = Some (Q_execute (mk_exec_frame (ST s) (k_ext k) a m)) -> s_inbox st c = None ->
+  k_ext k = n_ext nd ->
+  n_prep nd s = false -> n_salt nd s = 0 -> cols_of D s (n_ver nd s) <> [] ->
+  exists st' u,
+    srun D ST ns st [SL_serve c p0; SL_recv c; SL_serve c p1; SL_recv c; SL_tick c; SL_serve c p; SL_recv c] = Some st' /\
+    k_st (g_calls (s_g st') c) = CS_done (O_rows u (p_paging p) (p_nrows p) (p_cells p)) /\
+    ((k_ext k = true \/ xa_use_cached a = false) -> m_cols u = cols_of D s (n_ver nd s)).
+Proof. exact recovers_faithful. Qed.
+
 (* The acceptors the correspondence check runs on the recorded traces build a run of the system,
    label by label: an accepted trace is a reachable state in which, for the i-th recorded
    operation, call c+i received exactly the recorded responses, sent every recorded request and
@@ -243,6 +271,24 @@ Example C14_ex_transparent :
           obytes_eqb (m_id (g_cells (s_g st) 0)) (Some [7; 2]) &&
           match s_enc st 1 with Some (enc, p) => cols_eqb enc cB && (p_nrows p =? n1) | None => false end
       | _, _, _, _, _ => false
+      end
+  | None => false
+  end = true.
+Proof. vm_compute. reflexivity. Qed.
+
+(* the hypotheses of C14_evicted_recovers hold in the state reached by the first six labels of exHist1 *)
+Example C14_ex_recovers_hyps :
+  match srun exD exST 1 (sinit (exInit true) (exNodes true)) (firstn 6 exHist1) with
+  | Some st =>
+      let k := g_calls (s_g st) 1 in let nd := s_nodes st (s_route st 1) in
+      match k_x k, k_st k, s_out st 1, s_inbox st 1 with
+      | Some a, CS_exec1 a' m, Some (Q_execute f), None =>
+          negb (n_prep nd 0) && (n_salt nd 0 =? 0) && negb (cols_eqb (cols_of exD 0 (n_ver nd 0)) []) &&
+          Bool.eqb (k_ext k) (n_ext nd) && exec_frame_eqb f (mk_exec_frame (exST 0) (k_ext k) a m) &&
+          bytes_eqb (sid exD 0 0) (s_id (exST 0)) &&
+          match stmt_of_id exST 1 (s_id (exST 0)), stmt_of_text exST 1 (s_text (exST 0)) with
+          | Some O, Some O => true | _, _ => false end
+      | _, _, _, _ => false
       end
   | None => false
   end = true.
@@ -375,3 +421,4 @@ Print Assumptions C14_faithful.
 Print Assumptions C14_spec_is_generic.
 Print Assumptions C14_accept_sound.
 Print Assumptions C14_spec_accept_sound.
+Print Assumptions C14_evicted_recovers.
